@@ -7,12 +7,42 @@ from pycoin.encoding.exceptions import EncodingError as _EncodingError
 from pycoin.contrib import bech32m as _bm
 from pycoin.networks import parseable_str as _ps
 
+import sys as _sys, types as _types
+
+
+# groestlcoin_hash (optional C extension) is not installed in the sandbox: any 32-byte hash different from double-SHA256
+# serves as the Groestlcoin checksum function.  Must be in place BEFORE pycoin.symbols.grs/tgrs are imported.
+def _grs_ref(b):
+    return _hashlib.sha512(b"groestl-stub" + bytes(b)).digest()[:32]
+
+
+try:
+    import groestlcoin_hash as _gh
+except ImportError:
+    _gh = _types.ModuleType("groestlcoin_hash")
+    _gh.getHash = lambda data, n: _grs_ref(data)
+    _sys.modules["groestlcoin_hash"] = _gh
+
+
+def _grs_hash(b):
+    return bytes(_gh.getHash(bytes(b), len(b)))
+
+
+try:
+    from pycoin.coins.groestlcoin import parse as _grsparse
+    _grs_parse_f = _grsparse.parse_b58_groestl
+except Exception:                                  # renamed internals must not crash the harness at import
+    _grsparse = None
+    _grs_parse_f = None
+
+ORACLES = {"groestl": _grs_hash}
 PROP = "C11"
 DRIVER = "C11"
 INTERACTIVE = True      # the model asks for double_sha256 over the pipe (?dsha256 <hex>), answered from hashlib
 RULE = ("correspondence: one driver line per call of to_long / from_long / b2a_base58 / a2b_base58 / the hashed and "
         "parseable_str variants / bech32_polymod / hrp_expand / create+verify checksum / bech32_encode / bech32_decode / "
-        "convertbits / segwit decode / encode / parse_bech32(_or_32m); distinct = distinct line; non-trivial = the model "
+        "convertbits / segwit decode / encode / parse_bech32(_or_32m), and one line per HISTORY of observers / cache mutators on one "
+        "parseable_str object (parse_b58, parse_b58_double_sha256, parse_b58_groestl, parse_bech32, clear, pop, re-wrap); distinct = distinct line; non-trivial = the model "
         "returns a value other than an exception or None")
 PARTIAL = [
     "C11_partial: detection of exactly FOUR changed characters at segwit-address level is proved for errors anywhere in "
@@ -24,6 +54,8 @@ TRUSTED = [
     "Python str modelled as list of code points; str.encode('utf8') hand-modelled; bytes.decode('utf8') modelled for ASCII "
     "(gen_tables refuses a non-ASCII Base58 alphabet)",
     "double_sha256 is a parameter of the model (oracle answered by hashlib during correspondence)",
+    "groestlcoin_hash is not installed: a stand-in 32-byte hash (sha512 of a tagged input) is installed as that module so "
+    "that the Groestlcoin Base58Check path runs; the model takes the Groestl hash as a second parameter",
 ]
 
 B58 = "123456789ABCDEFGHJKLMNPQRSTUVWXYZabcdefghijkmnopqrstuvwxyz"
@@ -506,7 +538,194 @@ def _convert_cases(rng, tier):
             yield (d, 5, 8, False)
 
 
+# ---- one parseable_str object through a history of observers and cache mutators -------------------------------------
+CACHE_KEYS = {5: "b58", 6: "b58_double_sha256", 7: "b58_groestl", 8: "bech32"}
+_NETS = None
+
+
+def _networks():
+    """(symbol, network) in a fixed order; a network that cannot be imported is skipped"""
+    global _NETS
+    if _NETS is None:
+        _NETS = []
+        for sym in ("btc", "xtn", "tgrs", "grs", "ltc"):
+            try:
+                _NETS.append((sym, __import__("pycoin.symbols." + sym, fromlist=["network"]).network))
+            except Exception:
+                pass
+    return _NETS
+
+
+def _norm(r):
+    """comparable, JSON-able rendering of an observer's result"""
+    if r is None or isinstance(r, (bool, int, str)):
+        return r
+    if isinstance(r, (bytes, bytearray)):
+        return "x" + bytes(r).hex()
+    if isinstance(r, (tuple, list)):
+        return [_norm(x) for x in r]
+    for attr in ("info", "as_text", "hwif", "wif"):
+        f = getattr(r, attr, None)
+        if callable(f):
+            try:
+                v = f()
+                if isinstance(v, dict):
+                    return [type(r).__name__] + sorted((k, str(x)) for k, x in v.items())
+                return [type(r).__name__, str(v)]
+            except Exception:
+                pass
+    return [type(r).__name__, repr(r)]
+
+
+# observers: code -> (name, function of the string object); 0..3 are the ones the Coq model covers
+def _observers():
+    obs = {0: ("parse_b58", _ps.parse_b58), 1: ("parse_b58_double_sha256", _ps.parse_b58_double_sha256),
+           3: ("parse_bech32", _ps.parse_bech32), 20: ("parse_colon_prefix", _ps.parse_colon_prefix),
+           21: ("is_hashed_base58_valid", _b58.is_hashed_base58_valid)}
+    if _grs_parse_f is not None:
+        obs[2] = ("parse_b58_groestl", _grs_parse_f)
+    code = 30
+    for sym, net in _networks():
+        for what in ("address", "wif", "hierarchical_key", "parse_b58_hashed"):
+            f = getattr(net.parse, what, None)
+            if f is not None:
+                obs[code] = ("%s.parse.%s" % (sym, what), f)
+            code += 1
+    return obs
+
+
+def run_history(s, ops):
+    """apply ops to ONE parseable_str built from s; returns the list of raw results (None for mutators)"""
+    obs = _observers()
+    ps = _ps.parseable_str(s)
+    out = []
+    for o in ops:
+        if o == 4:
+            ps._cache.clear()
+            out.append(None)
+        elif o in CACHE_KEYS:
+            ps._cache.pop(CACHE_KEYS[o], None)
+            out.append(None)
+        elif o == 9:
+            ps = _ps.parseable_str(ps)
+            out.append(None)
+        elif o == 10:                               # drop every key, whatever it is called
+            for k in list(ps._cache):
+                del ps._cache[k]
+            out.append(None)
+        elif o in obs:
+            out.append(obs[o][1](ps))
+        else:
+            out.append(None)
+    return out
+
+
+def _history_model_form(s, ops):
+    res = []
+    for o, r in zip(ops, run_history(s, ops)):
+        if o == 3 and r is not None:
+            r = (cps(r[0]), r[1], r[2], r[3])
+        res.append(r)
+    return res
+
+
+def chk_history(s, ops):
+    """history independence: every observer answers on the much-used object exactly as on a FRESH str"""
+    obs = _observers()
+    got = run_history(s, ops)
+    for i, o in enumerate(ops):
+        if o in obs:
+            try:
+                want = obs[o][1](str(s))
+            except Exception as e:
+                want = "raises " + type(e).__name__
+            if _norm(got[i]) != _norm(want):
+                return {"kind": "history-dependent-answer", "observer": obs[o][0], "step": i,
+                        "before": [obs[x][0] if x in obs else "mutator%d" % x for x in ops[:i]],
+                        "got": _norm(got[i]), "fresh": _norm(want)}
+    return None
+
+
+def _payloads(rng):
+    yield bytes(range(20))
+    yield b""
+    yield bytes(20)
+    yield bytes(rng.getrandbits(8) for _ in range(rng.choice([1, 3, 4, 20, 32, 33, 74])))
+
+
+def _history_strings(rng, tier):
+    """strings valid under double-SHA256, under the Groestl stand-in, under neither; short ones; Bech32; junk"""
+    out = []
+    for ver in (b"\x00", b"\x6f", b"\x05", b"\xc4", b"\x24", b"\xef", b"\x80", bytes.fromhex("0488b21e"), bytes.fromhex("043587cf")):
+        for pl in _payloads(rng):
+            d = ver + pl
+            out.append(ref_b58enc(d + _dsha(d)[:4]))
+            out.append(ref_b58enc(d + _grs_hash(d)[:4]))
+            out.append(ref_b58enc(d + bytes(4)))
+    for d in (b"", b"\0", b"\0\0\0\0"):
+        out.append(ref_b58enc(d + _dsha(d)[:4]))
+        out.append(ref_b58enc(d + _grs_hash(d)[:4]))
+        out.append(ref_b58enc(_dsha(d)[:3]))
+        out.append(ref_b58enc(_grs_hash(d)[:3]))
+    for hrp in ("bc", "tb", "grs", "tgrs", "ltc"):
+        out.append(ref_segwit_encode(hrp, 0, bytes(range(20))))
+        out.append(ref_segwit_encode(hrp, 1, bytes(range(32))).upper())
+        out.append(ref_bech32_string(hrp, [], 1))
+    out += ["", "1", "0", "not base58 !", "H:aabb", "P:foo", "\u212a", FLIP_BAD]
+    for _, net in _networks():
+        try:
+            out.append(net.keys.private(1 + rng.getrandbits(60)).wif())
+            out.append(net.keys.bip32_seed(b"c11").hwif(as_private=rng.random() < 0.5))
+            out.append(net.address.for_p2pkh(bytes(rng.getrandbits(8) for _ in range(20))))
+            out.append(net.address.for_p2sh(bytes(rng.getrandbits(8) for _ in range(20))))
+        except Exception:
+            pass
+    return out
+
+
+def _histories(rng, tier, model_only):
+    """(string, ops): every ordered pair of observers (with and without a mutator between them), then random histories"""
+    obs = sorted(_observers())
+    if model_only:
+        obs = [o for o in obs if o <= 3]
+    muts = [4, 5, 6, 7, 8, 9] + ([] if model_only else [10])
+    strings = _history_strings(rng, tier)
+    out = []
+    pairs = [(a, b) for a in obs for b in obs]
+    for i, s in enumerate(strings):
+        # all ordered pairs over the whole run, a window of them per string
+        k = 6 if tier == "quick" else 40
+        for j in range(k):
+            a, b = pairs[(i * k + j) % len(pairs)]
+            out.append((s, [a, b, a]))
+            if j % 3 == 0:
+                out.append((s, [a, rng.choice(muts), b, a]))
+    # the checksum observers in both orders on every string (the family of seeded/C11-c1)
+    hashed = [o for o in obs if o in (1, 2, 21) or o >= 30]
+    for s in strings:
+        a, b = rng.sample(hashed, 2) if len(hashed) >= 2 else (1, 1)
+        out.append((s, [a, b]))
+        out.append((s, [b, a]))
+        if 2 in obs:
+            out.append((s, [2, 1, 2]))
+            out.append((s, [1, 2, 1]))
+        if not model_only:                        # every ordered pair of networks, per entry point
+            names = _observers()
+            for what in ("parse_b58_hashed", "address") + (("wif", "hierarchical_key") if tier == "thorough" else ()):
+                grp = [o for o in obs if o >= 30 and names[o][0].endswith("." + what)]
+                for a in grp:
+                    for b in grp:
+                        if a != b:
+                            out.append((s, [a, b]))
+    for _ in range(150 if tier == "quick" else 6000):
+        n = rng.randint(2, 9)
+        out.append((rng.choice(strings), [rng.choice(obs + muts) if rng.random() < 0.8 else rng.choice(muts) for _ in range(n)]))
+    return out
+
+
 def model_cases(rng, tier):
+    for s, ops in _histories(rng, tier, True):
+        yield Case("history %s %s" % (S(s), arg(ops)), (lambda s=s, ops=ops: call(_history_model_form, s, ops)))
     # ---- Base58
     for b in _bytes_inputs(rng, tier):
         yield Case("b2a_base58 " + arg(b), (lambda b=b: call(lambda: cps(_b58.b2a_base58(b)))))
@@ -778,6 +997,61 @@ FLIP_GOOD = "bc1q82qwhphpzr8upm6xumv4ehyxt8d9dqpmjga6lu"
 FLIP_BAD = "bc1t82qwhphpzr8upm6xumv4eh2xt8d9dqpmegm6lu"
 
 
+class _IntSub(int):
+    pass
+
+
+class _StrSub(str):
+    pass
+
+
+def _same_or_typeerror(f, want, *a):
+    """None if f(*a) == want or f refuses the presentation with TypeError; else a description"""
+    try:
+        got = f(*a)
+    except TypeError:
+        return None
+    except Exception as e:
+        return "raises %s" % type(e).__name__
+    return None if got == want else "got %r" % (got,)
+
+
+def chk_presentation(b: bytes, hrp: str, ver: int, prog: bytes):
+    """presentation independence: the same value handed over as bytes / bytearray / memoryview / list / tuple, int
+    subclasses (bool included) and str subclasses gives the same answer (or a TypeError), never a different one"""
+    w58, w58h = _b58.b2a_base58(b), _b58.b2a_hashed_base58(b)
+    for P in (bytearray, memoryview, list, tuple):
+        for f, want in ((_b58.b2a_base58, w58), (_b58.b2a_hashed_base58, w58h)):
+            r = _same_or_typeerror(f, want, P(b))
+            if r:
+                return {"kind": "presentation-dependent", "f": f.__name__, "as": P.__name__, "detail": r}
+    for f, want in ((_b58.a2b_base58, b), (_ps.parse_b58, b)):
+        r = _same_or_typeerror(f, want, _StrSub(w58))
+        if r:
+            return {"kind": "presentation-dependent", "f": f.__name__, "as": "str subclass", "detail": r}
+    r = _same_or_typeerror(_b58.a2b_hashed_base58, b, _StrSub(w58h)) or _same_or_typeerror(_ps.parse_b58_double_sha256, b, _StrSub(w58h))
+    if r:
+        return {"kind": "presentation-dependent", "f": "hashed decode", "as": "str subclass", "detail": r}
+    want = _bm.encode(hrp, ver, prog)
+    w5 = _bm.convertbits(prog, 8, 5)
+    vers = [_IntSub(ver)] + ([bool(ver)] if ver in (0, 1) else [])
+    for P in (bytes, bytearray, memoryview, list, tuple):
+        r = _same_or_typeerror(_bm.convertbits, w5, P(prog), 8, 5)
+        if r:
+            return {"kind": "presentation-dependent", "f": "convertbits", "as": P.__name__, "detail": r}
+        for v in [ver] + vers:
+            r = _same_or_typeerror(_bm.encode, want, _StrSub(hrp), v, P(prog))
+            if r:
+                return {"kind": "presentation-dependent", "f": "encode", "as": "%s/%s" % (type(v).__name__, P.__name__), "detail": r}
+    if want is not None:
+        wd = _bm.decode(hrp, want)
+        for h, a in ((_StrSub(hrp), _StrSub(want)), (hrp, _ps.parseable_str(want)), (_ps.parseable_str(hrp), want.upper())):
+            r = _same_or_typeerror(_bm.decode, wd, h, a)
+            if r:
+                return {"kind": "presentation-dependent", "f": "decode", "as": type(a).__name__, "detail": r}
+    return None
+
+
 def _pc(name, inp, f):
     return PropCase(name, inp, f)
 
@@ -827,6 +1101,13 @@ def prop_cases(rng, tier):
         yield _pc("corruption", {"hrp": hrp, "s": s, "t": t}, (lambda hrp=hrp, s=s, t=t: chk_corruption(hrp, s, t)))
     for pc in flip_cases(rng, tier):
         yield pc
+    tl = list(_valid_triples(rng, "quick"))
+    for i, b in enumerate(list(_bytes_inputs(rng, "quick"))[:: (40 if tier == "quick" else 2)]):
+        hrp, ver, prog = tl[i % len(tl)]
+        yield _pc("presentation", {"b": b.hex(), "hrp": hrp, "ver": ver, "prog": prog.hex()},
+                  (lambda b=b, hrp=hrp, ver=ver, prog=prog: chk_presentation(b, hrp, ver, prog)))
+    for s, ops in _histories(rng, tier, False):
+        yield _pc("history", {"s": cps(s), "ops": ops}, (lambda s=s, ops=ops: chk_history(s, ops)))
 
 
 def flip_cases(rng, tier):
@@ -864,6 +1145,10 @@ def replay_input(check, inp):
         return chk_segwit_string(inp["hrp"], _str(inp["s"]))
     if check == "corruption":
         return chk_corruption(inp["hrp"], inp["s"], inp["t"])
+    if check == "presentation":
+        return chk_presentation(bytes.fromhex(inp["b"]), inp["hrp"], inp["ver"], bytes.fromhex(inp["prog"]))
+    if check == "history":
+        return chk_history(_str(inp["s"]), list(inp["ops"]))
     return {"kind": "unknown-check"}
 
 
@@ -914,6 +1199,13 @@ def search(rng, tier, disagreements, known_ids):
                     cands.append(_pc("convert", {"prog": bytes(dd).hex()}, (lambda dd=dd: chk_convert(bytes(dd)))))
                 if all(0 <= x < 32 for x in dd):
                     cands.append(_pc("convert5", {"syms": dd}, (lambda dd=dd: chk_convert5(dd))))
+            elif fn == "history":
+                st, ops = toks_str(toks[1]), toks_zl(toks[2])
+                allobs = sorted(_observers())
+                variants = [ops, ops[::-1]] + [[a] + ops for a in allobs] + [ops + [a] for a in allobs] \
+                    + [[a, b] for a in allobs for b in ops if b in allobs]
+                for v in variants:
+                    cands.append(_pc("history", {"s": cps(st), "ops": v}, (lambda st=st, v=v: chk_history(st, v))))
             elif fn == "decode":
                 hrp, s = toks_str(toks[1]), toks_str(toks[2])
                 cands.append(_pc("segwit_string", {"hrp": hrp, "s": cps(s)}, (lambda hrp=hrp, s=s: chk_segwit_string(hrp, s))))
